@@ -51,6 +51,10 @@ type cfg struct {
 	ifi    bool // IsIncomingFaceIndicationEnabled + InFace set on the outgoing packet
 	tok    int  // 0 none; 1 packet arrived with a token and leaves with a (different) token; 2 leaves with a token, arrived without; 3 arrived with a token, leaves without; 4 arrived with a 6-byte token, leaves with a 32-byte token (tokens are 1..32 bytes, chosen by the downstream)
 	mark   int  // 0 none; 1 upstream congestion mark (value 1); 2 the link service adds its own mark; 3 upstream mark with an 8-byte value
+	// via: how the sender got its options. 0: constructed with them. 1..3: constructed with another
+	// option set (1: incoming-face indication toggled, 2: fragmentation toggled, 3: both toggled) and
+	// then changed to the final options with SetOptions, as management faces/update does.
+	via int
 }
 
 // features lists how a configuration departs from the baseline (fragmentation on, nothing attached).
@@ -80,6 +84,14 @@ func (c cfg) features() []string {
 	case 3:
 		f = append(f, "mark:upstream-8-byte-value")
 	}
+	switch c.via {
+	case 1:
+		f = append(f, "SetOptions(from:incoming-face-indication-toggled)")
+	case 2:
+		f = append(f, "SetOptions(from:fragmentation-toggled)")
+	case 3:
+		f = append(f, "SetOptions(from:both-toggled)")
+	}
 	return f
 }
 func (c cfg) String() string {
@@ -88,6 +100,24 @@ func (c cfg) String() string {
 		return "baseline"
 	}
 	return strings.Join(f, ",")
+}
+
+// viaCfgs: every final (fragmentation, incoming-face indication) option set reached through
+// SetOptions from each of the three other option sets, x token none/present x mark none/8-byte value.
+func viaCfgs() []cfg {
+	var out []cfg
+	for _, fr := range []bool{true, false} {
+		for _, ifi := range []bool{false, true} {
+			for via := 1; via <= 3; via++ {
+				for _, t := range []int{0, 1} {
+					for _, m := range []int{0, 3} {
+						out = append(out, cfg{fr, ifi, t, m, via})
+					}
+				}
+			}
+		}
+	}
+	return out
 }
 
 func allCfgs(base bool) []cfg {
@@ -100,7 +130,7 @@ func allCfgs(base bool) []cfg {
 		for _, ifi := range []bool{false, true} {
 			for _, t := range toks {
 				for _, m := range marks {
-					out = append(out, cfg{fr, ifi, t, m})
+					out = append(out, cfg{fr, ifi, t, m, 0})
 				}
 			}
 		}
@@ -272,7 +302,19 @@ func newPair(ctx *wctx, mtu int, c cfg) *pair {
 	if c.mark == 2 {
 		p.stx.SendQueueSize = so.DefaultCongestionThresholdBytes + 1
 	}
-	p.snd = face.VerifC10MakeLinkService(p.stx, so, 3000+ctx.id)
+	if c.via == 0 {
+		p.snd = face.VerifC10MakeLinkService(p.stx, so, 3000+ctx.id)
+	} else {
+		first := so
+		if c.via == 1 || c.via == 3 {
+			first.IsIncomingFaceIndicationEnabled = !c.ifi
+		}
+		if c.via == 2 || c.via == 3 {
+			first.IsFragmentationEnabled = !c.fragOn
+		}
+		p.snd = face.VerifC10MakeLinkService(p.stx, first, 3000+ctx.id)
+		p.snd.SetOptions(so)
+	}
 	ro := face.MakeNDNLPLinkServiceOptions()
 	p.rtx = face.VerifC10MakeTransport(mtu, defn.NonLocal, defn.PointToPoint)
 	p.rcv = face.VerifC10MakeLinkService(p.rtx, ro, ctx.id)
@@ -606,7 +648,7 @@ func main() {
 	}
 
 	// ---------------- Enumeration A ----------------
-	// Block 1: the property's own dimensions (fragmentation x incoming-face indication x token x
+	// Block 3: options reached through SetOptions (see viaCfgs). Block 1: the property's own dimensions (fragmentation x incoming-face indication x token x
 	// mark = 16 configurations) on the full MTU list of the tier. Block 2: the extended token/mark
 	// variants (token attached only on output / only on input, the link service's own mark, 8-byte
 	// mark value; 64 more configurations) on a smaller MTU list. Rows are MTU-major inside a block
@@ -632,14 +674,19 @@ func main() {
 		mtus1 = quickMTUs()
 		mtus2 = []int{128, 256, 257, 258, 508, 1280, 1500, 4000, 8192, 8800}
 	}
+	via := viaCfgs()
+	mtus3 := []int{160, 300, 508, 1500, 8192}
+	if thorough {
+		mtus3 = []int{128, 160, 256, 257, 258, 300, 508, 1280, 1500, 4000, 8192, 8800}
+	}
 	devOverride := false
 	if v := os.Getenv("VERIF_C10_MTUS"); v != "" { // development aid only: restrict both MTU lists
 		devOverride = true
-		mtus1, mtus2 = nil, nil
+		mtus1, mtus2, mtus3 = nil, nil, nil
 		for _, x := range strings.Split(v, ",") {
 			var m int
 			fmt.Sscan(x, &m)
-			mtus1, mtus2 = append(mtus1, m), append(mtus2, m)
+			mtus1, mtus2, mtus3 = append(mtus1, m), append(mtus2, m), append(mtus3, m)
 		}
 	}
 	type row struct {
@@ -656,6 +703,11 @@ func main() {
 	for _, m := range mtus2 {
 		for _, c := range ext {
 			rows = append(rows, row{m, c, 2})
+		}
+	}
+	for _, m := range mtus3 {
+		for _, c := range via {
+			rows = append(rows, row{m, c, 3})
 		}
 	}
 	// Cheapest rows first, so that a time cap costs as few rows as possible and always the same
@@ -733,6 +785,7 @@ func main() {
 		"sizes":  fmt.Sprintf("1..%d (every size; Interest below %d, Data from %d, raw bytes below %d and at 255, 256 = no well-formed packet of that size exists)", maxPacket, minD, minD, minI),
 		"block1": map[string]any{"configurations": len(base), "what": "fragmentation on/off x incoming-face indication x PIT token x congestion mark", "mtu_list_size": len(mtus1), "mtus_completed": summarize(1, mtus1, len(base))},
 		"block2": map[string]any{"configurations": len(ext), "what": "token only on output / only on input, link service's own congestion mark, 8-byte mark value (x the block-1 dimensions)", "mtu_list_size": len(mtus2), "mtus_completed": summarize(2, mtus2, len(ext))},
+		"block3": map[string]any{"configurations": len(via), "what": "sender options reached through SetOptions after construction with each of the 3 other (fragmentation, incoming-face indication) option sets x token none/present x mark none/8-byte value", "mtu_list": fmt.Sprint(mtus3), "mtus_completed": summarize(3, mtus3, len(via))},
 		"cases":  tot.nCases, "one_frame": tot.nOne, "fragmented": tot.nFrag, "dropped_no_frames": tot.nDrop, "frames": tot.nFrames,
 		"max_bytes_over_mtu_seen": maxExcess,
 	}
@@ -764,6 +817,7 @@ func main() {
 		"Packet contents: Data padded through Content (name component length 1..8 to reach every size), Interests below the smallest Data; sizes with no well-formed packet are sent as raw bytes and judged on the sender side only.",
 		"Own congestion marking (config mark:own) is armed through a hook that puts the link service in the state 'threshold exceeded, last mark long ago' and a transport reporting a congested queue; wall-clock time never decides an outcome.",
 		"Enumeration B also runs harness-built reference frames (Sequence/FragIndex/FragCount on every fragment, token and mark repeated) so that the receiver is exercised in every order even while the sender omits FragIndex/FragCount.",
+		"Block 3 reaches the sender's options through SetOptions from every other (fragmentation, incoming-face indication) option set; the oracle is the same as for a sender constructed with the final options.",
 		"MTU < 128 (where the header reserve can reach the MTU: division by zero in sendPacket) is outside this property (C17/C04).",
 	})
 	pprof.StopCPUProfile()
